@@ -373,3 +373,40 @@ def probe_from_table_error_path(ck, desc, selector: int):
             ck.violation("caller-table-unmodified", {"fn": "FlowPropertiesTwoPhase.from_table", "table": "PVT table as " + form, "made_unusable_by": how}, desc)
         if not instrument.same_snapshot(snap_kr, instrument.snapshot(kr_arg)):
             ck.violation("caller-table-unmodified", {"fn": "FlowPropertiesTwoPhase.from_table", "table": "rel-perm table", "made_unusable_by": how}, desc)
+
+
+def probe_from_table_coarse_heavy_oil(ck, desc, selector: int):
+    """FlowPropertiesTwoPhase.from_table on a coarse (lab-report) table of a saturated heavy oil whose total mobility
+    changes by more than an order of magnitude over two rows: positive columns, increasing pressure - so the scaled
+    pseudopressure is strictly increasing at the rows and in between, and is the reported m_i at p_i."""
+    import warnings
+
+    from bluebonnet.flow import FlowPropertiesTwoPhase, RelPermParams, relative_permeabilities_twophase
+
+    Sw = 0.1
+    step = [500.0, 250.0, 400.0][selector % 3]
+    p_b = 3000.0
+    pressure = np.arange(step, p_b + 1.0, step)
+    Sg = 0.15 * (p_b - pressure) / 500.0
+    cols = {
+        "pressure": pressure, "pseudopressure": pressure**2, "Bo": 1.05 + 1.0e-4 * pressure, "Bg": 5.0 / pressure, "Bw": 1.03 - 3.0e-6 * pressure,
+        "Rs": 0.15 * pressure, "Rv": np.full_like(pressure, 1.0e-6), "mu_o": [500.0, 120.0, 900.0][(selector // 3) % 3] - 0.03 * pressure,
+        "mu_g": 0.012 + 2.0e-6 * pressure, "mu_w": np.full_like(pressure, 0.5), "So": 1 - Sw - Sg,
+    }
+    keep = cols["So"] > 0.12
+    cols = {k: np.asarray(v, dtype=float)[keep] for k, v in cols.items()}
+    pressure = cols["pressure"]
+    kr = relative_permeabilities_twophase(RelPermParams(2, 2, 4, 0.1, Sw, 0.0, 1, 1, 1), Sw)
+    for form in ("df", "dict"):
+        for p_i in (float(pressure[-1]), float(0.5 * (pressure[-2] + pressure[-1]))):
+            with warnings.catch_warnings(), np.errstate(all="ignore"):
+                warnings.simplefilter("ignore")
+                obj = FlowPropertiesTwoPhase.from_table(pd.DataFrame(cols) if form == "df" else dict(cols), kr, {"rho_o0": 0.93, "rho_g0": 1.0e-3, "rho_w0": 1.0}, 0.1, Sw, p_i)
+            at_rows = np.asarray(obj.m_scaled_func(pressure), dtype=float)
+            dense = np.asarray(obj.m_scaled_func(np.linspace(pressure[0], pressure[-1], 2001)), dtype=float)
+            ck.count("coarse_heavy_oil_tables_through_from_table")
+            if not (np.all(np.diff(at_rows) > 0) and np.all(np.diff(dense) > 0)):
+                ck.violation("m_scaled_func-strictly-increasing", {"through": "FlowPropertiesTwoPhase.from_table", "table": f"heavy oil, rows {step:g} psi apart, as {form}", "p_i": p_i, "min_step_at_rows": float(np.min(np.diff(at_rows)))}, desc)
+            m_i = float(obj.m_i)
+            if abs(float(obj.m_scaled_func(p_i)) - m_i) > 1e-12 * abs(m_i):
+                ck.violation("m_scaled_func(p_i)=m_i", {"through": "FlowPropertiesTwoPhase.from_table", "m_i": m_i, "func": float(obj.m_scaled_func(p_i))}, desc)
